@@ -1182,3 +1182,43 @@ func writtenByClosure(a *ssa.Alloc) bool {
 func FieldName(fa *ssa.FieldAddr) string {
 	return fa.X.Type().Underlying().(*types.Pointer).Elem().Underlying().(*types.Struct).Field(fa.Field).Name()
 }
+
+// Subst rebuilds t with leaves replaced by f (nil = keep); field selections are re-projected
+// so that substituting a struct value for a pointer opens the selection.
+func (t *Term) Subst(f func(*Term) *Term) *Term {
+	if t == nil {
+		return nil
+	}
+	if r := f(t); r != nil {
+		return r
+	}
+	if len(t.Args) == 0 {
+		return t
+	}
+	args := make([]*Term, len(t.Args))
+	changed := false
+	for i, a := range t.Args {
+		args[i] = a.Subst(f)
+		if args[i] != a {
+			changed = true
+		}
+	}
+	if !changed {
+		return t
+	}
+	if t.Op == "field" {
+		r := projField(args[0], t.Name)
+		if r.Typ == nil {
+			r.Typ = t.Typ
+		}
+		return r
+	}
+	n := *t
+	n.Args = args
+	return &n
+}
+
+// LoadValue returns the value stored in a local (or heap-allocated literal) as seen at instruction `at`.
+func (e *Env) LoadValue(a *ssa.Alloc, at ssa.Instruction) *Term {
+	return e.load(a, at, a.Type().Underlying().(*types.Pointer).Elem())
+}
